@@ -12,13 +12,17 @@ CHECKS = {
                     "EVERY reachable state (the one exception, stated in the theorem: the update on which a root goes bankrupt with every position already flat leaves "
                     "the tree stale). Correspondence: raw private state after every operation of generated histories, bit-exact against the float instance of the same "
                     "model text; oracle on observed states.",
-            "note": COMMON_NOTE},
+            "note": COMMON_NOTE + " Whole backtests: every stock algo of the model and every Or / Not / AlgoStack / run_always composition preserves well-formedness "
+                    "(induction over the algo syntax), so do Strategy.run and Backtest.run; the state at the end of EVERY date of EVERY backtest (any declaration, "
+                    "data, stacks) is well-formed and, when fresh, balanced at every node."},
     "C12": {"text": "Theorems for every timestamp (no bound) and every index: month/day ranges, ISO (year, week) pairs equal iff same Monday-based week, "
                     "compare_dates true iff the period identifiers differ (day / ISO week / month / quarter / year), RunPeriod never fires on the synthetic row, "
                     "fires on interior dates exactly on period changes (begin and end-of-period modes), first/last dates by flag; RunOnce and RunAfterDays over "
                     "arbitrary call sequences; the last-date clause is refuted by a checked witness (known finding K11). Correspondence: calendar vs pandas over the "
                     "Timestamp range, exhaustive enumeration of flag triples x boundary-date subsets, random call sequences for the counting schedulers.",
-            "note": COMMON_NOTE + " RunOnDate / RunAfterDate (exactly on / strictly after), RunEveryNPeriods (once per distinct date; the k-th distinct date fires iff k = offset mod n) are theorems too."},
+            "note": COMMON_NOTE + " RunOnDate / RunAfterDate (exactly on / strictly after), RunEveryNPeriods (once per distinct date; the k-th distinct date fires iff k = offset mod n) are theorems too. 'Never on a date outside the data': "
+                    "RunPeriod as a function of the timestamp target.now (Algos.run_period_at) is False off the index and run_period at the date's row on it (theorems); "
+                    "the off_index_dates suite asks implementation and model about stamps before, inside gaps of, intraday on and after generated indices."},
     "C13": {"text": "Axiom-free theorems for every stack, result pattern and run_always placement, in both execution modes: which algos are invoked and in which "
                     "order (prefix up to the first False, then the later run_always=True algos), what the stack reports, that the two modes agree when nothing is marked, "
                     "Or invokes every branch once and reports the disjunction, Not inverts; instantiated on the interpreter for stacks of test doubles. "
@@ -63,7 +67,10 @@ CHECKS["C08"] = {
 CHECKS["C02"] = {
     "text": "Theorems: a trade at the current (or a custom) price leaves 'parent cash + position marked at the current price' unchanged except for exactly the spread "
             "cost and the fee; every update makes each strategy's value its cash plus its children's values (so capital moved between a parent and a sub-strategy "
-            "cancels). Oracle on whole implementation backtests (market-value and fixed-income, nested, with user-written adjustments): day-by-day attribution "
+            "cancels). Trees of any depth: on a balanced tree the root's value is all the cash held anywhere in the tree plus position x price x multiplier over "
+            "every security, so moving capital between a parent and its sub-strategies cannot change it; StrategyBase.update between two dates changes the root's value "
+            "by exactly the parked carry it sweeps up plus the mark-to-market change of holdings whose positions and multipliers are the ones held before, and moves no "
+            "other cash. Oracle on whole implementation backtests (market-value and fixed-income, nested, with user-written adjustments): day-by-day attribution "
             "V_t - V_{t-1} = sum pos_{t-1} (p_t - p_{t-1}) m + flows + non-flow adjustments + carry_{t-1} - fees_t - bid/offer paid_t from the recorded series; correspondence.",
     "note": COMMON_NOTE + " Strategy-level theorems: one allocate(amount) / transact(q) on a strategy of securities (any number of children traded, any commission, spreads, whole or "
             "fractional units incl. the sizing search) changes cash + sum(position x price x multiplier) by exactly the amount received minus recorded bid/offer minus recorded fees. "
@@ -104,9 +111,13 @@ CHECKS["C15"] = {
     "note": COMMON_NOTE + " ffn / sklearn / scipy kernels are oracles: their post-conditions are tested, not proved; ffn.limit_weights divides by the sum of the weights below the cap: when that sum is zero the total is not preserved (NaN in Python) — the theorem states the condition."}
 CHECKS["C04"] = {
     "category": "other",
-    "technique": "metamorphic perturbation of data dated after a cut (implementation and model) + model/implementation correspondence; partial machine-checked theorems (Coq/Rocq) on the window functions",
-    "text": "Partial theorems: the tradability filter reads only the current row of the universe, lookback windows never reach past the current row, and window "
-            "data counts are functions of the data prefix (any number type). The whole-run statement is decided by (a) perturbation pairs on the implementation: every "
+    "technique": "metamorphic perturbation of data dated after a cut (implementation and model) + model/implementation correspondence; partial machine-checked theorems (Coq/Rocq): engine-level no-look-ahead for trees of any depth, window functions of the algos",
+    "text": "Partial theorems, axiom-free and for every number instance (so bit for bit on floats): (engine) SecurityBase.update and its coupon / holding-cost tails "
+            "at row i commute with replacing prices, bid/offer, coupons and holding costs by any columns with the same row i; so does StrategyBase.update on a tree of "
+            "any depth; hence any sequence of updates to dates <= t yields the same recorded numbers for any two data sets agreeing up to t (under a stated commutation "
+            "hypothesis on the paper step of sub-strategies, which a tree of securities never calls); (algos) the tradability filter reads only the current row of the "
+            "universe, lookback windows never reach past the current row, and window "
+            "data counts are functions of the data prefix. The whole-run statement over every stock algo is decided by (a) perturbation pairs on the implementation: every "
             "generated backtest is re-run with every supplied value dated after a random cut replaced, and all history rows and per-run temp traces up to the cut must be "
             "identical token for token; (b) the correspondence with the interpreter, which can only index data at rows <= now (market-value, nested, fixed-income and risk "
             "runs: UpdateRisk reads unit-risk frames by their own date index).",
